@@ -73,7 +73,7 @@ func respell(t *rapid.T, s *core.StructSpec, withExtras bool) *core.StructSpec {
 }
 
 func genC12(t *rapid.T) c12Case {
-	cfg := core.GenCfg{Holder: true, BigIDs: true, MaxAnn: 4, MaxBytes: 2048, ContainerMax: 6, MaxFields: 7}
+	cfg := core.GenCfg{Holder: true, BigIDs: true, MaxAnn: 4, MaxBytes: 2048, ContainerMax: 6, MaxFields: 7, Twins: true}
 	base := core.GenStruct(t, cfg)
 	c := c12Case{}
 	k := rapid.IntRange(3, 6).Draw(t, "nspellings")
